@@ -115,8 +115,6 @@ func (d *Do) appendParameterBeforeTypeCalculate(
 			return blockParamaters
 		}
 
-		tmpParameters := [20]*base.T{}
-
 		if len(lastEvaluatedT.UnifyVariants().GetVariants()) == 0 {
 			blockParamaters =
 				append(blockParamaters, *lastEvaluatedT.UnifyVariants())
@@ -129,6 +127,17 @@ func (d *Do) appendParameterBeforeTypeCalculate(
 		if lastEvaluatedT.IsArrayType() {
 			targetRangeT = lastEvaluatedT.GetVariants()
 		}
+
+		// one slot per element position (an inner array may be wider than
+		// the number of variants)
+		slots := len(targetRangeT)
+		for _, variant := range targetRangeT {
+			if variant.GetType() == base.ARRAY && len(variant.GetVariants()) > slots {
+				slots = len(variant.GetVariants())
+			}
+		}
+
+		tmpParameters := make([]*base.T, max(slots, 1))
 
 		for idx, variant := range targetRangeT {
 			switch variant.GetType() {
